@@ -136,6 +136,58 @@ static void mutate(u8* b, size_t n)
     while (k-- && n) { size_t i = rndn((u32)n); switch (rndn(4)) { case 0: b[i] ^= (u8)(1u << rndn(8)); break; case 1: b[i] = (u8)rnd(); break; case 2: b[i] = 255; break; default: b[i] = (u8)(rndp(50) ? 0 : 0xF0 | rndn(16)); } }
 }
 
+/* ---------- chains of specification-generated blocks through LZ4_decompress_safe_continue ----------
+ * Segments: a segment is a run of blocks decoded contiguously in one exact-size heap buffer; a new segment starts somewhere else
+ * (another buffer) and the previous segment stays in place, unmodified: what lz4.h requires.  History visible to block k (and used by the
+ * generator for its offsets) = last 64 KB of [previous segment ++ current segment so far].  Empty blocks (the single byte 0x00) included. */
+static u64 n_chain_blocks, n_chain_empty, n_chain_switch_on_empty;
+static void chain_case(int thorough)
+{
+    enum { MAXB = 40 };
+    int nb = 2 + (int)rndn(thorough ? 38 : 24), k, nseg = 0; genblk_t g[MAXB]; int segOf[MAXB]; size_t segSize[MAXB]; u8* segBuf[MAXB]; size_t segFill[MAXB];
+    u8* hist = xalloc(2 * 70000 + 16); size_t prevLen = 0, curLen = 0;   /* hist = prev segment tail (<= 64 KB) ++ current segment (kept <= 64 KB tail) */
+    u8* prev = xalloc(70000); u8* cur = xalloc(70000 + 400000); size_t curTotal = 0;
+    LZ4_streamDecode_t sd; rec_t r; int sawEmptySwitch = 0;
+    memset(segSize, 0, sizeof segSize);
+    for (k = 0; k < nb; k++) {
+        int sw = (k > 0) && rndp(25); int empty = rndp(12); size_t hl;
+        if (sw) {   /* new segment: the current one becomes "previous" */
+            size_t keep = curLen < 65536 ? curLen : 65536; memcpy(prev, cur + (curLen - keep), keep); prevLen = keep; curLen = 0; nseg++;
+            if (empty) sawEmptySwitch = 1;
+        }
+        segOf[k] = nseg;
+        hl = 0; memcpy(hist, prev, prevLen); hl = prevLen; { size_t keep = curLen < 65536 ? curLen : 65536; memcpy(hist + hl, cur + (curLen - keep), keep); hl += keep; }
+        if (empty) { g[k].blk = xalloc(1); g[k].blk[0] = 0; g[k].blkSize = 1; g[k].content = xalloc(0); g[k].contentSize = 0; g[k].valid = 1; n_chain_empty++; }
+        else g[k] = gen_block(hl ? hist : NULL, hl, rndp(70) ? rndn(600) : rndn(thorough ? 60000 : 20000), 1);
+        if (curLen + g[k].contentSize > 70000 + 400000 - 16) { /* keep the scratch bounded: force a switch next time */ }
+        memcpy(cur + curLen, g[k].content, g[k].contentSize); curLen += g[k].contentSize; curTotal += g[k].contentSize;
+        segSize[nseg] += g[k].contentSize;
+        if (curLen > 400000) { size_t keep = 65536; memmove(cur, cur + (curLen - keep), keep); curLen = keep; }   /* only the tail matters for later histories */
+    }
+    nseg++;
+    for (k = 0; k < nseg; k++) { segBuf[k] = xalloc(segSize[k]); segFill[k] = 0; }
+    LZ4_setStreamDecode(&sd, NULL, 0);
+    for (k = 0; k < nb; k++) {
+        int sg = segOf[k]; u8* dst = segBuf[sg] + segFill[sg]; int cap = (int)g[k].contentSize; int ret; u8* src = xalloc(g[k].blkSize);
+        memcpy(src, g[k].blk, g[k].blkSize);
+        rec_begin(&r, OP_DECODE); rec_int(&r, M_CONTINUE_EXT); rec_int(&r, LZ4_FAST_DEC_LOOP); rec_int(&r, 9); rec_int(&r, cap); rec_int(&r, cap); rec_int(&r, 0);
+        rec_bytes(&r, src, g[k].blkSize); rec_int(&r, 0); rec_int(&r, 0); rec_bytes(&r, NULL, 0); rec_int(&r, 4 /* chain: not judged per block */); rec_int(&r, (long long)g[k].contentSize); rec_int(&r, (long long)g[k].blkSize);
+        cur_set(&r);
+        if (sg >= 2 && segFill[sg] == 0 && segBuf[sg - 2]) { free(segBuf[sg - 2]); segBuf[sg - 2] = NULL; }   /* two segments back is no longer needed: a use of it is a fault */
+        ret = LZ4_decompress_safe_continue(&sd, (const char*)src, (char*)dst, (int)g[k].blkSize, cap);
+        n_calls++; n_chain_blocks++; mode_hist[M_CONTINUE_EXT]++; if (ret >= 0) n_ok++; else n_err++;
+        if (ret != cap) c_fail(&r, "valid_block_rejected");
+        else if (cap && memcmp(dst, g[k].content, (size_t)cap) != 0) c_fail(&r, "valid_block_wrong_bytes");
+        cur_clear();
+        segFill[sg] += g[k].contentSize; free(src);
+        if (ret != cap) break;
+    }
+    if (sawEmptySwitch) n_chain_switch_on_empty++;
+    for (k = 0; k < nseg; k++) free(segBuf[k]);
+    for (k = 0; k < nb; k++) free_block(&g[k]);
+    free(hist); free(prev); free(cur);
+}
+
 int main(int argc, char** argv)
 {
     const char* mode; int thorough, i; u64 seed; u8* dictbuf;
@@ -192,6 +244,7 @@ int main(int argc, char** argv)
             }
             free_block(&g);
         }
+        if (!strcmp(mode, "c05")) { int nch = thorough ? 6000 : 400; for (i = 0; i < nch; i++) chain_case(thorough); }
         if (!strcmp(mode, "c02")) {
             /* random strings over an "interesting byte" alphabet, all short lengths */
             static const u8 alpha[] = {0x00,0x01,0x0F,0x10,0x11,0x1F,0x40,0x4F,0xF0,0xF1,0xFF,0x0E,0xE0,0xEF,0xFE,0x02,0x08,0x07,0x80,0x20,0x05,0x0C,0x13,0x50};
@@ -206,7 +259,7 @@ int main(int argc, char** argv)
     } else { fprintf(stderr, "unknown mode %s\n", mode); return 2; }
 
     harness_done();
-    stat_u("calls", n_calls); stat_u("decoder_ok", n_ok); stat_u("decoder_error", n_err); stat_u("records", g_nrecords); stat_u("fast_dec_loop", LZ4_FAST_DEC_LOOP);
+    stat_u("calls", n_calls); stat_u("chain_blocks", n_chain_blocks); stat_u("chain_empty_blocks", n_chain_empty); stat_u("chains_switching_on_empty_block", n_chain_switch_on_empty); stat_u("decoder_ok", n_ok); stat_u("decoder_error", n_err); stat_u("records", g_nrecords); stat_u("fast_dec_loop", LZ4_FAST_DEC_LOOP);
     for (i = 0; i < M_NB; i++) if (mode_hist[i]) { char k[64]; snprintf(k, sizeof k, "mode.%s", m_names[i]); stat_u(k, mode_hist[i]); }
     for (i = 0; i < 4; i++) if (dict_hist[i]) { char k[64]; snprintf(k, sizeof k, "dictclass.%d", i); stat_u(k, dict_hist[i]); }
     stat_u("cfails", (u64)g_cfails);
